@@ -218,6 +218,10 @@ def reserveLoop (cfg : Cfg) (k : Kind) (offset count : Nat) (lack : List Header)
           reserveLoop cfg k offset count lack q { a with proc := a.proc + 1, cache := c1, send := a.send ++ [h] }
     else (h :: q, a)
 
+def RAcc.start (space : Int) (cache : Cache) (pool done : List Header) : RAcc :=
+  { space := space, proc := 0, send := [], skip := [], cache := cache, pool := pool, done := done,
+    progress := false, err := false }
+
 inductive Err | ok | nofetch | stale | invalidchain | partialFail
 deriving DecidableEq, Repr
 
@@ -234,8 +238,7 @@ def reserve (s : State) (k : Kind) (limit peer count : Nat) : State × ReserveOu
   else
     let space := resultSlots s k limit
     let (q, a) := reserveLoop s.cfg k s.offset count (lget s.lacking peer) p.queue
-      { space := space, proc := 0, send := [], skip := [], cache := s.cache, pool := p.pool, done := p.done,
-        progress := false, err := false }
+      (RAcc.start space s.cache p.pool p.done)
     if a.err then
       (({ s with cache := a.cache, failed := true }).setPools k { p with queue := q, pool := a.pool, done := a.done },
        ⟨none, false, .invalidchain⟩)
@@ -275,6 +278,9 @@ def deliverLoop (cfg : Cfg) (k : Kind) (offset : Nat) : List Header → List Nat
           { cache := complete a.cache k h (some b),
             pool := removeAll h a.pool, done := insertSet h a.done, accepted := a.accepted + 1 }
 
+def DAcc.start (cache : Cache) (pool done : List Header) : DAcc :=
+  { cache := cache, pool := pool, done := done, accepted := 0 }
+
 def markLacking (l : List (Nat × List Header)) (peer : Nat) (hs : List Header) : List (Nat × List Header) :=
   (peer, hs.foldl (fun acc h => insertSet h acc) (lget l peer)) :: perase l peer
 
@@ -284,8 +290,7 @@ def deliver (s : State) (k : Kind) (peer : Nat) (bodies : List Nat) : State × N
   | none => (s, 0, .nofetch)
   | some hs =>
     let lacking := if bodies.isEmpty then markLacking s.lacking peer hs else s.lacking
-    let (rest, a, f) := deliverLoop s.cfg k s.offset hs bodies
-      { cache := s.cache, pool := p.pool, done := p.done, accepted := 0 }
+    let (rest, a, f) := deliverLoop s.cfg k s.offset hs bodies (DAcc.start s.cache p.pool p.done)
     let s' := ({ s with cache := a.cache, lacking := lacking, failed := s.failed || (f == Fail.invalidChain) }).setPools k
       { pool := a.pool, done := a.done, pend := perase p.pend peer, queue := pushAll rest p.queue }
     let e : Err :=
